@@ -388,3 +388,886 @@ Proof.
     destruct (negb (inv2_ok (s_ents s))); [discriminate|]. destruct (iter_order c s o); [|discriminate].
     destruct (consume_list (s_ents s) l); inv H.
 Qed.
+
+(* ------------------------------------------------------------------ *)
+(* lock_keys: what it returns and what it leaves alone (C07, C09, C10) *)
+
+Definition okey (x : gid * key * Z) : key := snd (fst x).
+Definition ogid (x : gid * key * Z) : gid := fst (fst x).
+
+Lemma lock_keys_spec ks : forall s s1 l,
+  NoDup ks -> (forall k, In k ks -> exists e, aget k (s_ents s) = Some e /\ e_owner e = None) ->
+  lock_keys s ks = (s1, l) ->
+  map okey l = ks /\
+  (forall g k v, In (g, k, v) l ->
+     In (g, k) (s_guards s1) /\ s_gid s <= g /\
+     exists e, aget k (s_ents s) = Some e /\ v = match val_of e with Some v => v | None => 0%Z end) /\
+  (forall k, ~ In k ks -> aget k (s_ents s1) = aget k (s_ents s)) /\
+  akeys (s_ents s1) = akeys (s_ents s) /\
+  s_ops s1 = s_ops s /\ s_clock s1 = s_clock s /\ s_gid s <= s_gid s1 /\
+  (forall g k, In (g, k) (s_guards s) -> In (g, k) (s_guards s1)).
+Proof.
+  induction ks as [|k rest IH]; intros s s1 l Hnd Hall H; cbn [lock_keys] in H.
+  - inv H. split; [reflexivity|]. split; [intros ? ? ? []|]. repeat split; auto.
+  - destruct (Hall k (or_introl eq_refl)) as (e & He & Ho). rewrite He in H. cbn [new_guard] in H.
+    inversion Hnd as [|? ? Hnk Hnd']; subst.
+    match type of H with context [lock_keys ?x rest] => set (s2 := x) in * end.
+    destruct (lock_keys s2 rest) as [s3 l3] eqn:E3. inv H.
+    assert (Hall2 : forall k', In k' rest -> exists e', aget k' (s_ents s2) = Some e' /\ e_owner e' = None).
+    { intros k' Hin. destruct (Hall k' (or_intror Hin)) as (e' & He' & Ho'). exists e'. split; auto.
+      unfold s2. cbn. rewrite aget_aset_neq; auto. intros ->. tauto. }
+    destruct (IH s2 s1 l3 Hnd' Hall2 E3) as (I1 & I2 & I3 & I4 & I5 & I6 & I7 & I8).
+    assert (K2 : akeys (s_ents s2) = akeys (s_ents s)).
+    { unfold s2. cbn. apply akeys_aset_in. eapply aget_Some_keys; eauto. }
+    split; [cbn; f_equal; auto|].
+    split.
+    { intros g k0 v [Hin|Hin].
+      - inv Hin. split; [apply I8; unfold s2; cbn; auto|]. split; [lia|]. eauto.
+      - destruct (I2 g k0 v Hin) as (J1 & J2 & e0 & J3 & J4). split; auto. split; [unfold s2 in J2; cbn in J2; lia|].
+        assert (k0 <> k).
+        { intros ->. apply Hnk. rewrite <- I1. apply in_map_iff. exists (g, k, v). auto. }
+        exists e0. split; auto. unfold s2 in J3. cbn in J3. rewrite aget_aset_neq in J3; auto. }
+    split.
+    { intros k0 Hn. rewrite I3 by (intros Hin; apply Hn; right; auto).
+      unfold s2. cbn. apply aget_aset_neq. intros ->. apply Hn. left; auto. }
+    split; [congruence|]. split; [rewrite I5; reflexivity|]. split; [rewrite I6; reflexivity|].
+    split; [unfold s2 in I7; cbn in I7; lia|].
+    intros g k0 Hin. apply I8. unfold s2. cbn. auto.
+Qed.
+
+(* ------------------------------------------------------------------ *)
+(* C10: the expiry scan *)
+
+Definition expired (s : state) (ct : Z) (k : key) : Prop :=
+  exists e v st, aget k (s_ents s) = Some e /\ e_owner e = None /\ e_val e = Some (v, st) /\ (st <= ct)%Z.
+
+Lemma expired_keys_spec s order ct k :
+  In k (expired_keys (s_ents s) order ct) <-> In k order /\ expired s ct k.
+Proof.
+  unfold expired_keys. rewrite filter_In. split; intros [H1 H2]; split; auto.
+  - destruct (aget k (s_ents s)) as [e|] eqn:He; [|discriminate].
+    destruct (e_owner e) eqn:Eo; [discriminate|]. destruct (e_val e) as [[v st]|] eqn:Ev; [|discriminate].
+    exists e, v, st. repeat split; auto. apply Z.leb_le. auto.
+  - destruct H2 as (e & v & st & He & Eo & Ev & Hle). rewrite He, Eo, Ev. apply Z.leb_le. auto.
+Qed.
+
+Theorem scan_exact c s a ct o s' l :
+  Inv s -> aget a (s_ops s) = Some (PScan ct) -> step c s (LResume a o) = ROk s' (OExpired l) ->
+  NoDup (map okey l) /\
+  (forall k, In k (map okey l) <-> expired s ct k) /\
+  (forall g k v, In (g, k, v) l -> In (g, k) (s_guards s') /\ vof s k = Some v) /\
+  (forall k, ~ In k (map okey l) -> aget k (s_ents s') = aget k (s_ents s)) /\
+  akeys (s_ents s') = akeys (s_ents s).
+Proof.
+  intros HI Ha H. cbn in H. unfold do_resume in H. rewrite Ha in H. apply cs_ok in H. unfold do_scan in H.
+  destruct (iter_order c s o) as [order|] eqn:Eord; [|discriminate].
+  destruct (iter_order_spec c s o order (inv_nd_e _ HI) Eord) as (Hnd & Hin & _).
+  destruct (lock_keys s (expired_keys (s_ents s) order ct)) as [s1 l1] eqn:El. inv H.
+  assert (Hnd2 : NoDup (expired_keys (s_ents s) order ct)) by (apply NoDup_filter; auto).
+  assert (Hall : forall k, In k (expired_keys (s_ents s) order ct) -> exists e, aget k (s_ents s) = Some e /\ e_owner e = None).
+  { intros k Hk. apply expired_keys_spec in Hk as [_ (e & v & st & He & Eo & _)]. eauto. }
+  destruct (lock_keys_spec _ s s1 l Hnd2 Hall El) as (I1 & I2 & I3 & I4 & I5 & I6 & I7 & I8).
+  rewrite I1. cbn [s_ents s_guards fin with_ops].
+  split; [auto|]. split.
+  { intros k. split.
+    - intros Hk. apply expired_keys_spec in Hk. tauto.
+    - intros Hk. apply expired_keys_spec. split; auto. apply Hin. destruct Hk as (e & _ & _ & He & _). eapply aget_Some_keys; eauto. }
+  split.
+  { intros g k v Hl. split; [apply (I2 g k v Hl)|].
+    destruct (I2 g k v Hl) as (_ & _ & e & He & Hv). unfold vof, vof_e. rewrite He.
+    assert (Hk : In k (expired_keys (s_ents s) order ct)) by (rewrite <- I1; apply in_map_iff; exists (g, k, v); auto).
+    apply expired_keys_spec in Hk as [_ (e' & v' & st & He' & _ & Ev & _)]. rewrite He in He'. inv He'.
+    unfold val_of in *. rewrite Ev in *. congruence. }
+  split; auto.
+Qed.
+
+(* what the call computes from its duration argument *)
+Theorem expire_start c s a d s' o :
+  step c s (LStart a (CExpire d)) = ROk s' o ->
+  c_lru c = true /\ (0 <= d)%Z /\
+  ((s_clock s - d >= instant_floor)%Z /\ o = ONothing /\ s' = set_pc s a (PScan (s_clock s - d)) \/
+   (s_clock s - d < instant_floor)%Z /\ o = OExpired [] /\ s' = s).
+Proof.
+  cbn. unfold do_start. destruct (amem a (s_ops s)); [discriminate|].
+  destruct (c_lru c) eqn:El; [|discriminate]. cbn. destruct (Z.leb_spec 0 d) as [Hd|Hd]; [|discriminate].
+  unfold cutoff_of. destruct (Z.ltb_spec (s_clock s - d) instant_floor) as [Hf|Hf]; intros Hs; inv Hs;
+    (split; [reflexivity|split; [exact Hd|]]); [right|left]; repeat split; auto; try lia; unfold instant_floor in *; lia.
+Qed.
+
+(* the stamp of an entry is written when its guard starts to be dropped, and when a value is inserted *)
+Theorem unlock_stamps c s g k e v st :
+  c_lru c = true -> aget g (s_guards s) = Some k -> aget k (s_ents s) = Some e -> e_val e = Some (v, st) ->
+  exists e', aget k (s_ents (begin_unlock c s g)) = Some e' /\ e_val e' = Some (v, s_clock s).
+Proof.
+  intros Hl Hg He Ev. unfold begin_unlock. rewrite Hl, Hg, He, Ev. cbn. rewrite aget_aset_eq. eauto.
+Qed.
+
+(* e_val (value and stamp) of every entry is untouched by a clock tick *)
+Theorem tick_keeps_entries c s d s' o : step c s (LTick d) = ROk s' o -> s_ents s' = s_ents s /\ s_clock s' = (s_clock s + d)%Z /\ (0 <= d)%Z.
+Proof. cbn. destruct (Z.leb_spec 0 d) as [Hd|Hd]; intros Hs; inv Hs. auto. Qed.
+
+(* ------------------------------------------------------------------ *)
+(* C07 / C08 / C09: the eviction critical section *)
+
+Definition evictable_b (ents : list (key * entry)) (k : key) : bool :=
+  match aget k ents with
+  | Some e => match e_owner e, e_val e with None, Some _ => true | _, _ => false end
+  | None => false
+  end.
+
+Lemma evict_scan_firstn ents order : forall n ks,
+  evict_scan ents order n = inl (Some ks) -> ks = firstn n (filter (evictable_b ents) order).
+Proof.
+  induction order as [|k rest IH]; intros n ks H.
+  - destruct n; cbn in H; inv H; reflexivity.
+  - destruct n as [|n']; cbn [evict_scan] in H; [inv H; reflexivity|].
+    cbn [filter]. unfold evictable_b at 1.
+    destruct (aget k ents) as [e|] eqn:He; [|discriminate].
+    destruct (e_owner e) as [ow|] eqn:Eo.
+    + destruct (Nat.ltb 0 (e_repl e)); [|discriminate]. apply IH; auto.
+    + destruct (e_val e) as [v|] eqn:Ev.
+      * destruct (evict_scan ents rest n') as [[l|]|] eqn:Es; try discriminate. inv H.
+        cbn. f_equal. apply IH; auto.
+      * destruct (Nat.ltb 0 (e_repl e)); [|discriminate]. apply IH; auto.
+Qed.
+
+Lemma evict_scan_nil_none ents order n :
+  evict_scan ents order (S n) = inl (Some []) -> forall k, In k order -> evictable_b ents k = false.
+Proof.
+  intros H k Hk. apply evict_scan_firstn in H.
+  destruct (filter (evictable_b ents) order) as [|x t] eqn:Ef; [|discriminate].
+  destruct (evictable_b ents k) eqn:E; auto.
+  assert (In k (filter (evictable_b ents) order)) by (apply filter_In; auto). rewrite Ef in H0. destruct H0.
+Qed.
+
+(* what an eviction round offers *)
+Theorem enter_offered c s a sh k n o s' l :
+  Inv s -> aget a (s_ops s) = Some (PEnter sh k (Some n)) ->
+  step c s (LResume a o) = ROk s' (OOffered l) ->
+  exists order,
+    iter_order c s o = Some order /\
+    n <= length (s_ents s) /\
+    l <> [] /\
+    length l <= length (s_ents s) - (n - 1) /\
+    map okey l = firstn (length (s_ents s) - (n - 1)) (filter (evictable_b (s_ents s)) order) /\
+    NoDup (map okey l) /\
+    (forall g k0 v, In (g, k0, v) l ->
+        evictable_b (s_ents s) k0 = true /\ vof s k0 = Some v /\
+        (forall g', ~ In (g', k0) (s_guards s)) /\ In (g, k0) (s_guards s')) /\
+    aget a (s_ops s') = Some (PInCb sh k n (map ogid l)) /\
+    akeys (s_ents s') = akeys (s_ents s).
+Proof.
+  intros HI Ha H. cbn in H. unfold do_resume in H. rewrite Ha in H. apply cs_ok in H. unfold do_enter in H.
+  assert (L : forall s1 o1, do_lookup c s a sh k = ROk s1 o1 -> forall l, o1 <> OOffered l).
+  { intros s1 o1 H1 l1. unfold do_lookup in H1. destruct (aget k (s_ents s)); [inv H1; discriminate|].
+    cbn [new_guard] in H1. inv H1. discriminate. }
+  destruct (length (s_ents s) - (n - 1)) as [|over] eqn:Eover; [exfalso; eapply L; eauto|].
+  destruct (iter_order c s o) as [order|] eqn:Eord; [|discriminate].
+  destruct (evict_scan (s_ents s) order (S over)) as [[ks|]|] eqn:Es; try discriminate.
+  destruct ks as [|k1 ks']; [exfalso; eapply L; eauto|].
+  destruct (iter_order_spec c s o order (inv_nd_e _ HI) Eord) as (Hnd & Hin & _).
+  destruct (evict_scan_spec _ _ _ _ Es) as (H1 & H2 & H3).
+  pose proof (evict_scan_firstn _ _ _ _ Es) as Hf.
+  destruct (lock_keys s (k1 :: ks')) as [s1 l1] eqn:El. inv H.
+  assert (Hall : forall k0, In k0 (k1 :: ks') -> exists e, aget k0 (s_ents s) = Some e /\ e_owner e = None).
+  { intros k0 Hk. destruct (H1 k0 Hk) as (_ & e & He & Ho & _). eauto. }
+  destruct (lock_keys_spec _ s s1 l (H2 Hnd) Hall El) as (I1 & I2 & I3 & I4 & I5 & I6 & I7 & I8).
+  exists order. split; auto. split; [lia|]. split.
+  { intros ->. discriminate. }
+  split.
+  { rewrite <- (map_length okey), I1. exact H3. }
+  split; [rewrite I1; exact Hf|]. split; [rewrite I1; apply H2; auto|]. split.
+  { intros g k0 v Hl.
+    assert (Hk : In k0 (k1 :: ks')) by (rewrite <- I1; apply in_map_iff; exists (g, k0, v); auto).
+    destruct (H1 k0 Hk) as (_ & e & He & Ho & Hv).
+    destruct (I2 g k0 v Hl) as (J1 & J2 & e' & He' & Hv'). rewrite He in He'. inv He'.
+    split; [unfold evictable_b; rewrite He, Ho; destruct (e_val e'); congruence|].
+    split.
+    { unfold vof, vof_e. rewrite He. unfold val_of in *. destruct (e_val e') as [[v0 st]|]; congruence. }
+    split; [|cbn; auto].
+    intros g' Hg'. apply In_aget in Hg'; [|apply (inv_nd_g _ HI)].
+    destruct (Inv_guard_present s g' k0 HI Hg') as (e2 & He2 & Ho2). congruence. }
+  split; [cbn; apply aget_aset_eq|]. cbn. auto.
+Qed.
+
+(* when no callback is invoked by a soft-limited call: below the limit, or nothing evictable *)
+Theorem enter_proceeds c s a sh k n o s' ob :
+  Inv s -> aget a (s_ops s) = Some (PEnter sh k (Some n)) ->
+  step c s (LResume a o) = ROk s' ob -> (forall l, ob <> OOffered l) ->
+  (length (s_ents s) <= n - 1 \/ (forall k0, In k0 (akeys (s_ents s)) -> evictable_b (s_ents s) k0 = false)) /\
+  do_lookup c s a sh k = ROk s' ob.
+Proof.
+  intros HI Ha H Hno. cbn in H. unfold do_resume in H. rewrite Ha in H. apply cs_ok in H. unfold do_enter in H.
+  destruct (length (s_ents s) - (n - 1)) as [|over] eqn:Eover; [split; auto; left; lia|].
+  destruct (iter_order c s o) as [order|] eqn:Eord; [|discriminate].
+  destruct (iter_order_spec c s o order (inv_nd_e _ HI) Eord) as (Hnd & Hin & _).
+  destruct (evict_scan (s_ents s) order (S over)) as [[ks|]|] eqn:Es; try discriminate.
+  destruct ks as [|k1 ks'].
+  - split; auto. right. intros k0 Hk. eapply evict_scan_nil_none; eauto. apply Hin; auto.
+  - destruct (lock_keys s (k1 :: ks')). inv H. exfalso. eapply Hno; eauto.
+Qed.
+
+Lemma lookup_size c s a sh k s' ob :
+  Inv s -> do_lookup c s a sh k = ROk s' ob -> length (s_ents s') <= S (length (s_ents s)) /\
+  (aget k (s_ents s) <> None -> length (s_ents s') = length (s_ents s)).
+Proof.
+  intros HI. pose proof (inv_nd_e _ HI) as Hnd.
+  unfold do_lookup. destruct (aget k (s_ents s)) as [e|] eqn:He.
+  - intros H; inv H. cbn. rewrite length_aset_in.
+    + assert (length (promote_if_lru c k (s_ents s)) = length (s_ents s)); [|split; auto; lia].
+      unfold promote_if_lru. destruct (c_lru c); [|auto].
+      rewrite <- !length_akeys, (akeys_apromote k e _ He), app_length. cbn.
+      apply remove_nat_length_in; auto. eapply aget_Some_keys; eauto.
+    + apply keys_aget_iff. rewrite promote_if_lru_get. eauto.
+  - cbn [new_guard]. intros H; inv H. cbn. split; [|congruence].
+    rewrite <- !length_akeys. rewrite akeys_aset_notin by (apply aget_None_keys; auto).
+    rewrite app_length. cbn. lia.
+Qed.
+
+Arguments akeys : simpl never.
+
+Definition nonevictable (s : state) : nat :=
+  length (filter (fun k => negb (evictable_b (s_ents s) k)) (akeys (s_ents s))).
+
+Theorem enter_bound c s a sh k n o s' ob :
+  Inv s -> 1 <= n -> aget a (s_ops s) = Some (PEnter sh k (Some n)) ->
+  step c s (LResume a o) = ROk s' ob -> (forall l, ob <> OOffered l) ->
+  length (s_ents s') <= Nat.max n (nonevictable s + 1).
+Proof.
+  intros HI Hn Ha H Hno. destruct (enter_proceeds c s a sh k n o s' ob HI Ha H Hno) as [Hc Hl].
+  destruct (lookup_size c s a sh k s' ob HI Hl) as [Hs _].
+  destruct Hc as [Hc|Hc]; [lia|].
+  assert (nonevictable s = length (s_ents s)); [|lia].
+  unfold nonevictable. rewrite <- length_akeys. f_equal.
+  induction (akeys (s_ents s)) as [|x t IH]; cbn; auto.
+  rewrite (Hc x (or_introl eq_refl)). cbn. f_equal. apply IH. intros k0 Hk. apply Hc. right; auto.
+Qed.
+
+(* ------------------------------------------------------------------ *)
+(* C09: only a lock call for k or the unlock of a guard for k moves k in the iteration order *)
+
+Definition subject (s : state) (l : label) : option key :=
+  match l with
+  | LResume a _ =>
+      match aget a (s_ops s) with
+      | Some (PEnter _ k _) | Some (PKeyTry _ k) | Some (PKeyWait _ k) | Some (PQueued _ k)
+      | Some (PCleanup _ k) | Some (PCancel k) => Some k
+      | Some (PDrops (g :: _) _) => aget g (s_guards s)
+      | _ => None
+      end
+  | LSub a k _ =>
+      match aget a (s_ops s) with
+      | Some (PStream subs) =>
+          match aget k subs with Some (SUnlocking g) => aget g (s_guards s) | _ => Some k end
+      | _ => Some k
+      end
+  | _ => None
+  end.
+
+Definition order_rel (kp : option key) (e1 e2 : list (key * entry)) : Prop :=
+  match kp with
+  | Some k => remove_nat k (akeys e2) = remove_nat k (akeys e1)
+  | None => akeys e2 = akeys e1
+  end.
+
+Lemma order_rel_weaken k e1 e2 : akeys e2 = akeys e1 -> order_rel (Some k) e1 e2.
+Proof. cbn. congruence. Qed.
+
+Lemma akeys_promote_if_lru_rm c k (ents : list (key * entry)) :
+  remove_nat k (akeys (promote_if_lru c k ents)) = remove_nat k (akeys ents).
+Proof.
+  unfold promote_if_lru. destruct (c_lru c); auto. unfold apromote.
+  destruct (aget k ents) as [e|] eqn:He; auto.
+  rewrite akeys_app, akeys_adel, remove_nat_app, remove_nat_idem. unfold akeys. cbn. rewrite Nat.eqb_refl. apply app_nil_r.
+Qed.
+
+Lemma akeys_aset_rm k (e : entry) ents : remove_nat k (akeys (aset k e ents)) = remove_nat k (akeys ents).
+Proof.
+  destruct (in_dec Nat.eq_dec k (akeys ents)).
+  - rewrite akeys_aset_in; auto.
+  - rewrite akeys_aset_notin, remove_nat_app; auto. cbn. rewrite Nat.eqb_refl. apply app_nil_r.
+Qed.
+
+Lemma akeys_adel_rm k (ents : list (key * entry)) : remove_nat k (akeys (adel k ents)) = remove_nat k (akeys ents).
+Proof. rewrite akeys_adel. apply remove_nat_idem. Qed.
+
+Lemma akeys_aset_present k (e e' : entry) ents : aget k ents = Some e -> akeys (aset k e' ents) = akeys ents.
+Proof. intros H. apply akeys_aset_in. eapply aget_Some_keys; eauto. Qed.
+
+Lemma lock_keys_akeys ks : forall s, akeys (s_ents (fst (lock_keys s ks))) = akeys (s_ents s).
+Proof.
+  induction ks as [|k rest IH]; intros s; cbn [lock_keys]; auto.
+  destruct (aget k (s_ents s)) as [e|] eqn:He; [|apply IH]. cbn [new_guard].
+  match goal with |- context [lock_keys ?x rest] => set (s2 := x) end.
+  specialize (IH s2). destruct (lock_keys s2 rest) as [s3 l]. cbn [fst] in *. rewrite IH.
+  unfold s2. cbn. eapply akeys_aset_present; eauto.
+Qed.
+
+Lemma clone_all_akeys order : forall ents, akeys (clone_all ents order) = akeys ents.
+Proof.
+  induction order as [|k rest IH]; intros ents; cbn [clone_all]; auto.
+  destruct (aget k ents) as [e|] eqn:He; [|apply IH]. rewrite IH. eapply akeys_aset_present; eauto.
+Qed.
+
+Lemma begin_unlock_akeys c s g : akeys (s_ents (begin_unlock c s g)) = akeys (s_ents s).
+Proof.
+  unfold begin_unlock. destruct (c_lru c); auto. destruct (aget g (s_guards s)) as [k|]; auto.
+  destruct (aget k (s_ents s)) as [e|] eqn:He; auto. destruct (e_val e) as [[v st]|]; auto.
+  cbn. eapply akeys_aset_present; eauto.
+Qed.
+
+Lemma cleanup_order ents k ents' : cleanup_ents ents k = inl (Some ents') -> order_rel (Some k) ents ents'.
+Proof.
+  unfold cleanup_ents. destruct (aget k ents) as [e|]; [|discriminate].
+  destruct (Nat.eqb _ 1).
+  - destruct (e_owner e); [discriminate|]. destruct (e_val e); intros H; inv H; cbn;
+      [apply akeys_aset_rm|apply akeys_adel_rm].
+  - intros H; inv H. cbn. apply akeys_aset_rm.
+Qed.
+
+Lemma cancel_order c ents a k ents' : cancel_ents c ents a k = inl (Some ents') -> order_rel (Some k) ents ents'.
+Proof.
+  unfold cancel_ents. destruct (aget k ents) as [e|]; [|discriminate]. cbn [e_repl set_repl e_owner e_val].
+  destruct (Nat.eqb _ 0).
+  - destruct (e_owner _); [discriminate|]. destruct (e_val _); intros H; inv H; cbn.
+    + apply akeys_aset_rm.
+    + rewrite akeys_adel_rm. apply akeys_aset_rm.
+  - intros H; inv H. cbn. apply akeys_aset_rm.
+Qed.
+
+Lemma unlock_cs_order c s g s1 k : aget g (s_guards s) = Some k ->
+  unlock_cs c s g = inl (Some s1) -> order_rel (Some k) (s_ents s) (s_ents s1).
+Proof.
+  intros Hg. unfold unlock_cs. rewrite Hg. destruct (aget k (s_ents s)) as [e|]; [|discriminate].
+  destruct (e_val e); [intros H; inv H; cbn; apply akeys_aset_rm|].
+  cbn [e_repl set_repl]. destruct (Nat.eqb _ 0); intros H; inv H; cbn.
+  - rewrite akeys_adel_rm, akeys_promote_if_lru_rm. apply akeys_aset_rm.
+  - rewrite akeys_promote_if_lru_rm. apply akeys_aset_rm.
+Qed.
+
+Theorem step_order_frame c s l s' o :
+  step c s l = ROk s' o -> (forall o', l <> LConsume o') -> order_rel (subject s l) (s_ents s) (s_ents s').
+Proof.
+  intros H Hnc. destruct l; cbn [step subject] in *.
+  - unfold do_start in H. destruct (amem a (s_ops s)); [discriminate|]. destruct c0.
+    + destruct (lim_ok lim); inv H; reflexivity.
+    + destruct (guard_live s g); inv H. cbn. apply begin_unlock_akeys.
+    + destruct (c_lru c && Z.leb 0 d)%bool; [|discriminate]. destruct (cutoff_of _ _); inv H; reflexivity.
+    + inv H; reflexivity.
+    + inv H; reflexivity.
+    + inv H; reflexivity.
+  - unfold do_resume in H. destruct (aget a (s_ops s)) as [p|] eqn:Ha; [|discriminate].
+    assert (L : forall sh k s' o, do_lookup c s a sh k = ROk s' o -> order_rel (Some k) (s_ents s) (s_ents s')).
+    { intros sh k s1 o1 H1. unfold do_lookup in H1. destruct (aget k (s_ents s)) as [e|] eqn:He.
+      - inv H1. cbn. rewrite akeys_aset_rm. apply akeys_promote_if_lru_rm.
+      - cbn [new_guard] in H1. inv H1. cbn. apply akeys_aset_rm. }
+    destruct p; try discriminate; try (apply cs_ok in H).
+    + unfold do_enter in H. destruct lim as [n|]; [|eapply L; eauto].
+      destruct (length (s_ents s) - (n - 1)); [eapply L; eauto|].
+      destruct (iter_order c s o0); [|discriminate].
+      destruct (evict_scan (s_ents s) l (S n0)) as [[[|k1 ks]|]|]; try discriminate; [eapply L; eauto|].
+      pose proof (lock_keys_akeys (k1 :: ks) s) as V. destruct (lock_keys s (k1 :: ks)) as [s1 off]. inv H.
+      apply order_rel_weaken. apply V.
+    + unfold do_key_try in H. destruct (aget k (s_ents s)) as [e|] eqn:He; [|discriminate].
+      destruct (e_owner e); inv H; apply order_rel_weaken; [reflexivity|]. cbn. eapply akeys_aset_present; eauto.
+    + unfold do_key_wait in H. destruct (aget k (s_ents s)) as [e|] eqn:He; [|discriminate].
+      destruct (e_owner e); inv H; apply order_rel_weaken; cbn; eapply akeys_aset_present; eauto.
+    + unfold do_queued in H. destruct (aget k (s_ents s)) as [e|] eqn:He; [|discriminate].
+      destruct (own_is_waiter _ a); inv H. apply order_rel_weaken. cbn. eapply akeys_aset_present; eauto.
+    + unfold do_cleanup in H. destruct (cleanup_ents (s_ents s) k) as [[ents|]|] eqn:Hc; inv H.
+      cbn [s_ents fin with_ents with_ops]. eapply cleanup_order; eauto.
+    + destruct (cancel_ents c (s_ents s) a k) as [[ents|]|] eqn:Hc; inv H.
+      cbn [s_ents fin with_ents with_ops]. eapply cancel_order; eauto.
+    + unfold do_drops in H. destruct gs as [|g rest]; [discriminate|].
+      destruct (unlock_cs c s g) as [[s1|]|] eqn:Hu; try discriminate.
+      assert (Hg : exists k, aget g (s_guards s) = Some k).
+      { unfold unlock_cs in Hu. destruct (aget g (s_guards s)); [eauto|discriminate]. }
+      destruct Hg as [k Hg]. rewrite Hg. pose proof (unlock_cs_order c s g s1 k Hg Hu) as V.
+      destruct rest; [destruct af|]; inv H; auto.
+      cbn in *. rewrite begin_unlock_akeys. auto.
+    + unfold do_scan in H. destruct (iter_order c s o0); [|discriminate].
+      pose proof (lock_keys_akeys (expired_keys (s_ents s) l cutoff) s) as V.
+      destruct (lock_keys s _) as [s1 ll]. inv H. apply V.
+    + unfold do_stream_enter in H. destruct (iter_order c s o0); inv H. cbn. apply clone_all_akeys.
+    + inv H. reflexivity.
+    + destruct (iter_order c s o0); inv H. reflexivity.
+  - unfold do_sub in H. destruct (aget a (s_ops s)) as [p|] eqn:Ha; [|discriminate].
+    destruct p; try discriminate.
+    + assert (P : do_sub_poll c s a subs k = ROk s' o ->
+                  order_rel (match aget k subs with Some (SUnlocking g) => aget g (s_guards s) | _ => Some k end)
+                            (s_ents s) (s_ents s')).
+      { intros H1. unfold do_sub_poll in H1. destruct (aget k subs) as [st|]; [|discriminate].
+        destruct (aget k (s_ents s)) as [e|] eqn:He; [|discriminate].
+        destruct st.
+        - destruct (e_owner e).
+          + inv H1. apply order_rel_weaken. cbn. eapply akeys_aset_present; eauto.
+          + cbn [new_guard] in H1. destruct (val_of e); inv H1; apply order_rel_weaken; cbn; eapply akeys_aset_present; eauto.
+        - destruct (own_is_waiter _ a); [|discriminate]. cbn [new_guard] in H1.
+          destruct (val_of e); inv H1; apply order_rel_weaken; cbn; eapply akeys_aset_present; eauto.
+        - destruct (unlock_cs c s g) as [[s1|]|] eqn:Hu; inv H1. cbn [s_ents set_pc with_ops].
+          assert (Hg : exists k', aget g (s_guards s) = Some k').
+          { unfold unlock_cs in Hu. destruct (aget g (s_guards s)); [eauto|discriminate]. }
+          destruct Hg as [k' Hg]. rewrite Hg. eapply unlock_cs_order; eauto. }
+      destruct (aget k subs) as [[| |g]|]; try (apply cs_ok in H); apply P; auto.
+    + apply cs_ok in H. unfold do_sub_drop in H. destruct (aget k subs) as [st|]; [|discriminate].
+      destruct st; try discriminate;
+        (destruct (cancel_ents c (s_ents s) a k) as [[ents|]|] eqn:Hc; try discriminate;
+         pose proof (cancel_order c _ a k ents Hc) as V;
+         destruct (adel k subs); inv H; auto).
+  - unfold do_pollend in H. destruct (aget a (s_ops s)) as [[]|]; try discriminate. destruct subs; inv H; reflexivity.
+  - unfold do_cancel in H. destruct (aget a (s_ops s)) as [[]|]; try discriminate.
+    + destruct (sh_is_async sh); inv H; reflexivity.
+    + destruct (sh_is_async sh); inv H; reflexivity.
+    + destruct (existsb _ subs); [discriminate|]. destruct subs; inv H; reflexivity.
+  - unfold do_guard_op in H. destruct (negb (guard_live s g)); [discriminate|].
+    destruct (aget g (s_guards s)) as [k0|]; [|discriminate].
+    destruct (aget k0 (s_ents s)) as [e|] eqn:He; [|discriminate].
+    destruct op; try (destruct (e_val e) as [[? ?]|]); inv H; cbn; try reflexivity; eapply akeys_aset_present; eauto.
+  - unfold do_cbreturn in H. destruct (aget a (s_ops s)) as [[]|]; try discriminate.
+    destruct hold.
+    + destruct offered as [|g rest]; [discriminate|]. destruct (all_live s _ && _)%bool; inv H.
+      cbn. apply begin_unlock_akeys.
+    + destruct r; inv H; reflexivity.
+  - destruct (Z.leb 0 d); inv H. reflexivity.
+  - exfalso. eapply Hnc; eauto.
+Qed.
+
+Lemma lookup_promotes c s a sh k s' o :
+  c_lru c = true -> do_lookup c s a sh k = ROk s' o ->
+  akeys (s_ents s') = remove_nat k (akeys (s_ents s)) ++ [k].
+Proof.
+  intros Hl. unfold do_lookup, promote_if_lru. rewrite Hl. destruct (aget k (s_ents s)) as [e|] eqn:He.
+  - intros H; inv H. cbn [s_ents set_pc with_ents with_ops].
+    rewrite akeys_aset_in; [apply (akeys_apromote k e); auto|].
+    apply akeys_apromote_In. eapply aget_Some_keys; eauto.
+  - cbn [new_guard]. intros H; inv H. cbn [s_ents fin with_ents with_ops with_gid with_guards].
+    assert (Hn : ~ In k (akeys (s_ents s))) by (apply aget_None_keys; auto).
+    rewrite akeys_aset_notin, remove_nat_notin; auto.
+Qed.
+
+(* ------------------------------------------------------------------ *)
+(* enabledness (C03, C08) *)
+
+Definition oracle_ok (c : cfg) (s : state) (o : list key) : Prop :=
+  c_lru c = true \/ is_perm_of o (akeys (s_ents s)) = true.
+
+Lemma iter_order_some c s o : oracle_ok c s o -> exists order, iter_order c s o = Some order.
+Proof. unfold iter_order. intros [H|H]; rewrite H; eauto. destruct (c_lru c); eauto. Qed.
+
+Lemma cs_intro s s1 o1 : Inv s -> Inv s1 -> cs s (ROk s1 o1) = ROk s1 o1.
+Proof. intros H H1. unfold cs, check_inv2_after. rewrite (Inv_inv2_ok s H), (Inv_inv2_ok s1 H1). auto. Qed.
+
+Lemma handle_present s a p k : Inv s -> aget a (s_ops s) = Some p -> pc_handles p k = 1 ->
+  exists e, aget k (s_ents s) = Some e.
+Proof.
+  intros HI Ha Hp. apply keys_aget. apply (ki_p _ _ (inv_k _ HI k)). unfold handles.
+  pose proof (agent_handles s a p k Ha). lia.
+Qed.
+
+Lemma evict_scan_total ents order n :
+  (forall k, In k order -> aget k ents <> None) -> evict_scan ents order n <> inl None.
+Proof.
+  revert n. induction order as [|k rest IH]; intros n Hall; destruct n; cbn; try discriminate.
+  destruct (aget k ents) as [e|] eqn:He; [|exfalso; apply (Hall k); auto; left; auto].
+  assert (Hr : forall n, evict_scan ents rest n <> inl None) by (intros; apply IH; intros; apply Hall; right; auto).
+  destruct (e_owner e); [destruct (e_repl e); [discriminate|apply Hr]|].
+  destruct (e_val e).
+  - specialize (Hr n). destruct (evict_scan ents rest n) as [[l|]|]; try discriminate. congruence.
+  - destruct (e_repl e); [discriminate|apply Hr].
+Qed.
+
+Definition pc_runnable (p : pc) : bool :=
+  match p with
+  | PEnter _ _ _ | PKeyTry _ _ | PKeyWait _ _ | PCleanup _ _ | PCancel _ | PScan _ | PStreamEnter
+  | PCount | PKeys => true
+  | _ => false
+  end.
+
+Definition pc_needs_oracle (p : pc) : bool :=
+  match p with PEnter _ _ (Some _) | PScan _ | PStreamEnter | PKeys => true | _ => false end.
+
+Theorem resume_enabled c s a p o :
+  Inv s -> aget a (s_ops s) = Some p -> pc_runnable p = true ->
+  (pc_needs_oracle p = true -> oracle_ok c s o) ->
+  exists s' ob, step c s (LResume a o) = ROk s' ob.
+Proof.
+  intros HI Ha Hp Hor0.
+  destruct (step c s (LResume a o)) as [s' ob| |site] eqn:E; [eauto| |exfalso; eapply step_no_panic; eauto].
+  exfalso. cbn in E. unfold do_resume in E. rewrite Ha in E.
+  assert (Hor : pc_needs_oracle p = true -> exists order, iter_order c s o = Some order /\
+                  NoDup order /\ (forall k, In k order <-> In k (akeys (s_ents s)))).
+  { intros Hn. destruct (iter_order_some c s o (Hor0 Hn)) as [order Hord]. exists order. split; auto.
+    destruct (iter_order_spec c s o order (inv_nd_e _ HI) Hord) as (Hnd & Hin & _). auto. }
+  assert (CS : forall r, (exists s1 o1, r = ROk s1 o1 /\ Inv s1) -> cs s r <> RInvalid).
+  { intros r (s1 & o1 & -> & H1). rewrite cs_intro; auto. discriminate. }
+  destruct p; try discriminate.
+  - (* PEnter *) revert E. apply CS.
+    assert (L : exists s1 o1, do_lookup c s a sh k = ROk s1 o1).
+    { unfold do_lookup. destruct (aget k (s_ents s)); [eauto|]. destruct (new_guard s k). eauto. }
+    assert (exists s1 o1, do_enter c s a sh k lim o = ROk s1 o1) as (s1 & o1 & H1).
+    { unfold do_enter. destruct lim as [n|]; auto. destruct (length (s_ents s) - (n - 1)); auto.
+      destruct (Hor eq_refl) as (order & Hord & Hnd & Hin). rewrite Hord.
+      pose proof (evict_scan_total (s_ents s) order (S n0)) as Ht.
+      pose proof (evict_scan_no_panic s order (S n0)) as Hn.
+      destruct (evict_scan (s_ents s) order (S n0)) as [[[|k1 ks]|]|site1]; auto.
+      - destruct (lock_keys s (k1 :: ks)). eauto.
+      - exfalso. apply Ht; auto. intros k0 Hk. apply Hin in Hk. apply keys_aget in Hk as [e He]. congruence.
+      - exfalso. eapply Hn; eauto. }
+    exists s1, o1. split; auto. eapply do_enter_inv; eauto.
+  - (* PKeyTry *) destruct (handle_present s a _ k HI Ha) as [e He]; [cbn; rewrite Nat.eqb_refl; auto|].
+    unfold do_key_try in E. rewrite He in E. destruct (e_owner e); [discriminate|]. destruct (new_guard s k). discriminate.
+  - destruct (handle_present s a _ k HI Ha) as [e He]; [cbn; rewrite Nat.eqb_refl; auto|].
+    unfold do_key_wait in E. rewrite He in E. destruct (e_owner e); [discriminate|]. destruct (new_guard s k). discriminate.
+  - (* PCleanup *) revert E. apply CS.
+    destruct (handle_present s a _ k HI Ha) as [e He]; [cbn; rewrite Nat.eqb_refl; auto|].
+    pose proof (cleanup_no_panic s a (PCleanup sh k) k) as Hn.
+    assert (exists ents, cleanup_ents (s_ents s) k = inl (Some ents)) as [ents Hc].
+    { destruct (cleanup_ents (s_ents s) k) as [[ents|]|site1] eqn:Hc; [eauto| |].
+      - unfold cleanup_ents in Hc. rewrite He in Hc. destruct (Nat.eqb _ 1); [|discriminate].
+        destruct (e_owner e); [discriminate|]. destruct (e_val e); discriminate.
+      - exfalso. eapply Hn; eauto; cbn; rewrite ?Nat.eqb_refl; auto. }
+    unfold do_cleanup. rewrite Hc. eexists _, _. split; [reflexivity|].
+    eapply (do_cleanup_inv c s a sh k); eauto. unfold do_cleanup. rewrite Hc. reflexivity.
+  - (* PCancel *) revert E. apply CS.
+    pose proof (cancel_no_panic c s a (PCancel k) k) as Hn.
+    destruct (handle_present s a _ k HI Ha) as [e He]; [cbn; rewrite Nat.eqb_refl; auto|].
+    assert (exists ents, cancel_ents c (s_ents s) a k = inl (Some ents)) as [ents Hc].
+    { destruct (cancel_ents c (s_ents s) a k) as [[ents|]|site1] eqn:Hc; [eauto| |].
+      - unfold cancel_ents in Hc. rewrite He in Hc. cbn [e_repl set_repl e_owner e_val] in Hc.
+        destruct (Nat.eqb _ 0); [|discriminate]. destruct (e_owner _); [discriminate|]. destruct (e_val _); discriminate.
+      - exfalso. eapply Hn; eauto; cbn; rewrite ?Nat.eqb_refl; auto. }
+    rewrite Hc. eexists _, _. split; [reflexivity|]. eapply do_pcancel_inv; eauto.
+  - (* PScan *) revert E. apply CS. unfold do_scan. destruct (Hor eq_refl) as (order & Hord & Hnd & Hin). rewrite Hord.
+    destruct (lock_keys s (expired_keys (s_ents s) order cutoff)) as [s1 l] eqn:El.
+    eexists _, _. split; [reflexivity|]. eapply (do_scan_inv c s a cutoff o); eauto.
+    unfold do_scan. rewrite Hord, El. reflexivity.
+  - revert E. apply CS. unfold do_stream_enter. destruct (Hor eq_refl) as (order & Hord & Hnd & Hin). rewrite Hord. eexists _, _. split; [reflexivity|].
+    eapply (do_stream_enter_inv c s a o); eauto. unfold do_stream_enter. rewrite Hord. reflexivity.
+  - revert E. apply CS. eexists _, _. split; [reflexivity|]. apply (pc_change_inv s a PCount None); auto; solve_pc.
+  - revert E. apply CS. destruct (Hor eq_refl) as (order & Hord & Hnd & Hin). rewrite Hord. eexists _, _. split; [reflexivity|]. apply (pc_change_inv s a PKeys None); auto; solve_pc.
+Qed.
+
+(* a waiter that was handed the mutex can take its step and gets the guard *)
+Theorem handed_waiter_runs c s a sh k e o :
+  aget a (s_ops s) = Some (PQueued sh k) -> aget k (s_ents s) = Some e -> e_owner e = Some (OwnW a) ->
+  exists s' g, step c s (LResume a o) = ROk s' (OGuard g k (val_of e)) /\ In (g, k) (s_guards s').
+Proof.
+  intros Ha He Ho. cbn. unfold do_resume. rewrite Ha. unfold do_queued. rewrite He, Ho. cbn. rewrite Nat.eqb_refl.
+  eexists _, _. split; [reflexivity|]. cbn. auto.
+Qed.
+
+(* a key nobody holds or waits for is acquired without waiting *)
+Theorem free_key_acquires c s a sh k e o :
+  aget a (s_ops s) = Some (PKeyWait sh k) -> aget k (s_ents s) = Some e -> e_owner e = None ->
+  exists s' g, step c s (LResume a o) = ROk s' (OGuard g k (val_of e)).
+Proof.
+  intros Ha He Ho. cbn. unfold do_resume. rewrite Ha. unfold do_key_wait. rewrite He, Ho. cbn. eauto.
+Qed.
+
+Theorem absent_key_acquires c s a sh k s' ob :
+  aget k (s_ents s) = None -> do_lookup c s a sh k = ROk s' ob -> exists g, ob = OGuard g k None.
+Proof. intros He. unfold do_lookup. rewrite He. cbn [new_guard]. intros H; inv H. eauto. Qed.
+
+(* releasing a key hands it to the oldest waiter *)
+Theorem release_hands_over c s g k e a q s1 :
+  Inv s -> aget g (s_guards s) = Some k -> aget k (s_ents s) = Some e -> e_queue e = a :: q ->
+  unlock_cs c s g = inl (Some s1) ->
+  exists e1, aget k (s_ents s1) = Some e1 /\ e_owner e1 = Some (OwnW a) /\ e_queue e1 = q.
+Proof.
+  intros HI Hg He Hq. unfold unlock_cs. rewrite Hg, He.
+  assert (M : mx_release e = set_queue (set_owner e (Some (OwnW a))) q) by (unfold mx_release; rewrite Hq; auto).
+  assert (R : 2 <= e_repl e).
+  { pose proof (inv_k _ HI k) as [kmx kg kw kr k2 kp]. rewrite (kr e He). unfold handles.
+    assert (0 < gcount (s_guards s) k) by (apply gcount_pos; exists g; apply aget_In; auto).
+    assert (0 < ops_handles (s_ops s) k).
+    { apply waits_on_handles with (a := a). apply kw. exists e. split; auto. left. rewrite Hq. left; auto. }
+    lia. }
+  destruct (e_val e).
+  - intros H; inv H. cbn. rewrite aget_aset_eq. rewrite M. eauto.
+  - cbn [e_repl set_repl]. destruct (Nat.eqb_spec (e_repl e - 1) 0); [lia|].
+    intros H; inv H. cbn. rewrite promote_if_lru_get, aget_aset_eq, M. eauto.
+Qed.
+
+(* nobody can run => every blocked waiter waits for a key held by a live (client-owned) guard *)
+Theorem blocked_on_guard s a sh k :
+  Inv s -> aget a (s_ops s) = Some (PQueued sh k) ->
+  (forall a' sh' k', aget a' (s_ops s) = Some (PQueued sh' k') -> agent_blocked s a' (PQueued sh' k') = true) ->
+  (forall a' subs, aget a' (s_ops s) = Some (PStream subs) -> subs <> [] -> agent_blocked s a' (PStream subs) = true) ->
+  (forall a' subs, aget a' (s_ops s) <> Some (PStreamDrop subs)) ->
+  (forall a' k', aget a' (s_ops s) <> Some (PCancel k')) ->
+  exists g, aget g (s_guards s) = Some k.
+Proof.
+  intros HI Ha Hq Hs Hd Hc. pose proof (inv_k _ HI k) as [kmx kg kw kr k2 kp].
+  assert (W : waits_on s a k) by (exists (PQueued sh k); split; auto; cbn; apply Nat.eqb_refl).
+  apply kw in W as (e & He & Hw).
+  pose proof (Hq a sh k Ha) as Hqa. cbn in Hqa. unfold handed in Hqa. rewrite He in Hqa. apply negb_true_iff in Hqa.
+  destruct Hw as [Hin|Ho]; [|rewrite Ho in Hqa; cbn in Hqa; rewrite Nat.eqb_refl in Hqa; discriminate].
+  destruct (e_owner e) as [[g|a']|] eqn:Eo.
+  - exists g. apply kg. eauto.
+  - (* handed to a': then a' could run, contradiction *)
+    exfalso. assert (W' : waits_on s a' k) by (apply kw; eauto).
+    destruct W' as (p' & Ha' & Hw').
+    destruct p'; cbn in Hw'; try discriminate.
+    + apply Nat.eqb_eq in Hw'. subst k0.
+      pose proof (Hq a' sh0 k Ha') as B.
+      cbn in B. unfold handed in B. rewrite He, Eo in B. cbn in B. rewrite Nat.eqb_refl in B. discriminate.
+    + eapply Hc; eauto.
+    + (* a stream with a handed sub-future is not blocked *)
+      assert (subs <> []) by (intros ->; discriminate).
+      specialize (Hs a' subs Ha' H). cbn in Hs. destruct subs as [|x t]; [congruence|].
+      rewrite forallb_forall in Hs. unfold sub_waits in Hw'.
+      destruct (aget k (x :: t)) as [[]|] eqn:Ek; try discriminate.
+      apply aget_In in Ek. specialize (Hs _ Ek). cbn in Hs. unfold handed in Hs. rewrite He, Eo in Hs. cbn in Hs.
+      rewrite Nat.eqb_refl in Hs. discriminate.
+    + eapply Hd; eauto.
+  - destruct (kmx e He) as (m1 & _). rewrite (m1 Eo) in Hin. destruct Hin.
+Qed.
+
+(* ------------------------------------------------------------------ *)
+(* C11: lock_all_entries *)
+
+Theorem stream_snapshot c s a o s' ks :
+  Inv s -> aget a (s_ops s) = Some PStreamEnter -> step c s (LResume a o) = ROk s' (OStream ks) ->
+  NoDup ks /\ (forall k, In k ks <-> In k (akeys (s_ents s))) /\
+  aget a (s_ops s') = Some (PStream (init_subs ks)) /\ akeys (s_ents s') = akeys (s_ents s).
+Proof.
+  intros HI Ha H. cbn in H. unfold do_resume in H. rewrite Ha in H. apply cs_ok in H. unfold do_stream_enter in H.
+  destruct (iter_order c s o) as [order|] eqn:Eo; [|discriminate]. inv H.
+  destruct (iter_order_spec c s o ks (inv_nd_e _ HI) Eo) as (H1 & H2 & _).
+  repeat split; auto; try apply H2.
+  - cbn. apply aget_aset_eq.
+  - cbn. apply clone_all_akeys.
+Qed.
+
+(* a stream step for key k: what can be observed and how the set of pending keys evolves *)
+Theorem stream_sub_step c s a subs k o s' ob :
+  aget a (s_ops s) = Some (PStream subs) -> step c s (LSub a k o) = ROk s' ob ->
+  aget k subs <> None /\
+  exists subs', aget a (s_ops s') = Some (PStream subs') /\
+    (forall k', aget k' subs' <> None -> aget k' subs <> None) /\
+    (forall k', k' <> k -> aget k' subs' = aget k' subs) /\
+    match ob with
+    | OItem g k' v => k' = k /\ vof s k = Some v /\ In (g, k) (s_guards s') /\ aget k subs' = None
+    | ONothing => True
+    | _ => False
+    end.
+Proof.
+  intros Ha H. cbn in H. unfold do_sub in H. rewrite Ha in H.
+  assert (P : do_sub_poll c s a subs k = ROk s' ob -> aget k subs <> None /\
+    exists subs', aget a (s_ops s') = Some (PStream subs') /\
+      (forall k', aget k' subs' <> None -> aget k' subs <> None) /\
+      (forall k', k' <> k -> aget k' subs' = aget k' subs) /\
+      match ob with
+      | OItem g k' v => k' = k /\ vof s k = Some v /\ In (g, k) (s_guards s') /\ aget k subs' = None
+      | ONothing => True
+      | _ => False
+      end).
+  { intros H1. unfold do_sub_poll in H1. destruct (aget k subs) as [st|] eqn:Hs; [|discriminate].
+    split; [discriminate|].
+    destruct (aget k (s_ents s)) as [e|] eqn:He; [|discriminate].
+    assert (Mono_del : forall k', aget k' (adel k subs) <> None -> aget k' subs <> None).
+    { intros k'. rewrite aget_adel. destruct (Nat.eqb k' k); [congruence|auto]. }
+    assert (Mono_set : forall st' k', aget k' (aset k st' subs) <> None -> aget k' subs <> None).
+    { intros st' k'. rewrite aget_aset. destruct (Nat.eqb_spec k' k); [subst; congruence|auto]. }
+    assert (Acq : forall s' ob,
+      (let (s1, g) := new_guard s k in
+       let s2 := with_ents s1 (aset k (set_owner e (Some (OwnG g))) (s_ents s1)) in
+       match val_of e with
+       | Some v => ROk (set_pc s2 a (PStream (adel k subs))) (OItem g k v)
+       | None => ROk (set_pc s2 a (PStream (aset k (SUnlocking g) subs))) ONothing
+       end) = ROk s' ob ->
+      exists subs', aget a (s_ops s') = Some (PStream subs') /\
+      (forall k', aget k' subs' <> None -> aget k' subs <> None) /\
+      (forall k', k' <> k -> aget k' subs' = aget k' subs) /\
+      match ob with
+      | OItem g k' v => k' = k /\ vof s k = Some v /\ In (g, k) (s_guards s') /\ aget k subs' = None
+      | ONothing => True
+      | _ => False
+      end).
+    { intros s1 o1 Hr. cbn [new_guard] in Hr. destruct (val_of e) as [v|] eqn:Ev; inv Hr.
+      - exists (adel k subs). cbn. rewrite aget_aset_eq. repeat split; auto.
+        + intros k' Hne. apply aget_adel_neq; auto.
+        + unfold vof, vof_e. rewrite He. auto.
+        + apply aget_adel_eq.
+      - exists (aset k (SUnlocking (s_gid s)) subs). cbn. rewrite aget_aset_eq. repeat split; eauto.
+        intros k' Hne. apply aget_aset_neq; auto. }
+    destruct st.
+    - destruct (e_owner e); [|apply Acq; auto].
+      inv H1. exists (aset k SQueued subs). cbn. rewrite aget_aset_eq. repeat split; eauto.
+      intros k' Hne. apply aget_aset_neq; auto.
+    - destruct (own_is_waiter _ a); [apply Acq; auto|discriminate].
+    - destruct (unlock_cs c s g) as [[s1|]|] eqn:Hu; inv H1.
+      exists (adel k subs). cbn. rewrite aget_aset_eq. repeat split; auto.
+      intros k' Hne. apply aget_adel_neq; auto. }
+  destruct (aget k subs) as [[| |g]|]; try (apply cs_ok in H); apply P; auto.
+Qed.
+
+Theorem stream_pollend c s a subs s' ob :
+  aget a (s_ops s) = Some (PStream subs) -> step c s (LPollEnd a) = ROk s' ob ->
+  s' = s /\ (ob = OEnd <-> subs = []) /\ (ob = OPending <-> subs <> []).
+Proof.
+  intros Ha H. cbn in H. unfold do_pollend in H. rewrite Ha in H.
+  destruct subs; inv H; repeat split; auto; try discriminate; try congruence.
+Qed.
+
+(* a guard without a value is never yielded: it is dropped by the stream itself *)
+Theorem stream_valueless_not_yielded c s a subs k o s' g k' v :
+  aget a (s_ops s) = Some (PStream subs) -> step c s (LSub a k o) = ROk s' (OItem g k' v) -> vof s k <> None.
+Proof.
+  intros Ha H. destruct (stream_sub_step c s a subs k o s' _ Ha H) as (_ & subs' & _ & _ & _ & (_ & Hv & _)).
+  congruence.
+Qed.
+
+(* ------------------------------------------------------------------ *)
+(* C06: cancellation *)
+
+Theorem cancel_pending_lock c s a sh k o :
+  Inv s -> aget a (s_ops s) = Some (PQueued sh k) -> sh_is_async sh = true ->
+  exists s1 s2,
+    step c s (LCancel a) = ROk s1 ONothing /\ aget a (s_ops s1) = Some (PCancel k) /\
+    s_ents s1 = s_ents s /\ s_guards s1 = s_guards s /\
+    step c s1 (LResume a o) = ROk s2 OCancelled /\
+    aget a (s_ops s2) = None /\ ~ waits_on s2 a k /\ Inv s2 /\
+    (forall k', vof s2 k' = vof s k') /\ s_guards s2 = s_guards s.
+Proof.
+  intros HI Ha Hsh.
+  assert (E1 : step c s (LCancel a) = ROk (set_pc s a (PCancel k)) ONothing).
+  { cbn. unfold do_cancel. rewrite Ha, Hsh. reflexivity. }
+  pose proof (step_inv c s _ _ _ HI E1) as HI1.
+  assert (Ha1 : aget a (s_ops (set_pc s a (PCancel k))) = Some (PCancel k)) by (cbn; apply aget_aset_eq).
+  destruct (resume_enabled c _ a (PCancel k) o HI1 Ha1 eq_refl) as (s2 & ob & E2); [discriminate|].
+  pose proof (step_inv c _ _ _ _ HI1 E2) as HI2.
+  exists (set_pc s a (PCancel k)), s2.
+  assert (Hfin : ob = OCancelled /\ aget a (s_ops s2) = None /\ s_guards s2 = s_guards s).
+  { pose proof E2 as E2'. cbn in E2'. unfold do_resume in E2'. rewrite Ha1 in E2'. apply cs_ok in E2'.
+    cbn [s_ents set_pc with_ops] in E2'.
+    destruct (cancel_ents c (s_ents s) a k) as [[ents|]|]; inv E2'. repeat split; auto. cbn. apply aget_adel_eq. }
+  destruct Hfin as (-> & Hn & Hg).
+  split; [exact E1|]. split; [exact Ha1|]. split; [reflexivity|]. split; [reflexivity|]. split; [exact E2|].
+  split; [exact Hn|]. split; [intros (p & Hp & _); congruence|]. split; [exact HI2|]. split; [|exact Hg].
+  intros k'. rewrite (step_values_unchanged c _ _ _ _ E2 eq_refl k').
+  apply (step_values_unchanged c _ _ _ _ E1 eq_refl k').
+Qed.
+
+(* dropping a stream: every pending per-entry future can be dropped, and doing so removes it *)
+Theorem cancel_stream_sub c s a subs k o :
+  Inv s -> aget a (s_ops s) = Some (PStreamDrop subs) ->
+  (aget k subs = Some SInit \/ aget k subs = Some SQueued) ->
+  exists s' ob, step c s (LSub a k o) = ROk s' ob /\
+    (adel k subs = [] -> ob = OCancelled /\ aget a (s_ops s') = None) /\
+    (adel k subs <> [] -> ob = ONothing /\ aget a (s_ops s') = Some (PStreamDrop (adel k subs))) /\
+    (forall k', vof s' k' = vof s k').
+Proof.
+  intros HI Ha Hk.
+  destruct (step c s (LSub a k o)) as [s' ob| |site] eqn:E; [| |exfalso; eapply step_no_panic; eauto].
+  - exists s', ob. split; auto. pose proof E as E'. cbn in E'. unfold do_sub in E'. rewrite Ha in E'. apply cs_ok in E'.
+    unfold do_sub_drop in E'.
+    assert (exists ents, cancel_ents c (s_ents s) a k = inl (Some ents) /\
+              match adel k subs with
+              | [] => ROk (fin (with_ents s ents) a) OCancelled
+              | _ => ROk (set_pc (with_ents s ents) a (PStreamDrop (adel k subs))) ONothing
+              end = ROk s' ob) as (ents & Hc & Hr).
+    { destruct Hk as [Hk|Hk]; rewrite Hk in E';
+        destruct (cancel_ents c (s_ents s) a k) as [[ents|]|]; try discriminate; eauto. }
+    split; [|split].
+    + intros Hd. rewrite Hd in Hr. inv Hr. split; auto. cbn. apply aget_adel_eq.
+    + intros Hd. destruct (adel k subs) eqn:Ed; [congruence|]. inv Hr. split; auto. cbn. apply aget_aset_eq.
+    + intros k'. apply (step_values_unchanged c _ _ _ _ E eq_refl k').
+  - exfalso. cbn in E. unfold do_sub in E. rewrite Ha in E.
+    assert (H1 : pc_handles (PStreamDrop subs) k = 1) by (cbn; unfold sub_handles; destruct Hk as [-> | ->]; auto).
+    destruct (handle_present s a _ k HI Ha H1) as [e He].
+    pose proof (cancel_no_panic c s a (PStreamDrop subs) k) as Hn.
+    assert (exists ents, cancel_ents c (s_ents s) a k = inl (Some ents)) as [ents Hc].
+    { destruct (cancel_ents c (s_ents s) a k) as [[ents|]|site1] eqn:Hc; [eauto| |].
+      - unfold cancel_ents in Hc. rewrite He in Hc. cbn [e_repl set_repl e_owner e_val] in Hc.
+        destruct (Nat.eqb _ 0); [|discriminate]. destruct (e_owner _); [discriminate|]. destruct (e_val _); discriminate.
+      - exfalso. eapply Hn; eauto. }
+    assert (exists s1 o1, do_sub_drop c s a subs k = ROk s1 o1) as (s1 & o1 & Hd).
+    { unfold do_sub_drop. destruct Hk as [-> | ->]; rewrite Hc; destruct (adel k subs); eauto. }
+    rewrite Hd in E. rewrite cs_intro in E; [discriminate|auto|].
+    eapply do_sub_drop_inv; eauto.
+Qed.
+
+(* ------------------------------------------------------------------ *)
+(* C08 / C15: callbacks *)
+
+Theorem callback_error_propagates c s a sh k n offered s' ob :
+  aget a (s_ops s) = Some (PInCb sh k n offered) ->
+  step c s (LCbReturn a CbErr false) = ROk s' ob ->
+  ob = OErr /\ s' = fin s a.
+Proof.
+  intros Ha H. cbn in H. unfold do_cbreturn in H. rewrite Ha in H. inv H. auto.
+Qed.
+
+(* a panicking callback leaves exactly the state an erroring one leaves (only the observation differs) *)
+Theorem callback_panic_like_error c s a hold s1 o1 s2 o2 :
+  step c s (LCbReturn a CbPanic hold) = ROk s1 o1 -> step c s (LCbReturn a CbErr hold) = ROk s2 o2 ->
+  s_ents s1 = s_ents s2 /\ s_guards s1 = s_guards s2 /\ s_clock s1 = s_clock s2 /\ s_gid s1 = s_gid s2 /\
+  (forall a', a' <> a -> aget a' (s_ops s1) = aget a' (s_ops s2)) /\
+  match aget a (s_ops s1), aget a (s_ops s2) with
+  | None, None => o1 = OPanicked /\ o2 = OErr
+  | Some (PDrops gs1 ADonePanicked), Some (PDrops gs2 ADoneErr) => gs1 = gs2 /\ o1 = ONothing /\ o2 = ONothing
+  | _, _ => False
+  end.
+Proof.
+  cbn. unfold do_cbreturn. destruct (aget a (s_ops s)) as [[]|]; try discriminate.
+  destruct hold.
+  - destruct offered as [|g rest]; [discriminate|]. destruct (all_live s _ && _)%bool; [|discriminate].
+    intros H1 H2; inv H1; inv H2. cbn. rewrite !aget_aset_eq. repeat split; auto.
+    intros a' Hne. rewrite !aget_aset_neq; auto.
+  - intros H1 H2; inv H1; inv H2. cbn. rewrite !aget_adel_eq. repeat split; auto.
+Qed.
+
+(* the drop sequence after a panic ends with the observation OPanicked: the panic reaches the caller *)
+Theorem drops_after_panic_report c s a g o s' ob :
+  aget a (s_ops s) = Some (PDrops [g] ADonePanicked) -> step c s (LResume a o) = ROk s' ob ->
+  ob = OPanicked /\ aget a (s_ops s') = None /\ ~ In g (akeys (s_guards s')).
+Proof.
+  intros Ha H. cbn in H. unfold do_resume in H. rewrite Ha in H. apply cs_ok in H. unfold do_drops in H.
+  destruct (unlock_cs c s g) as [[s1|]|] eqn:Hu; inv H. repeat split; auto.
+  - cbn. apply aget_adel_eq.
+  - cbn. unfold unlock_cs in Hu. destruct (aget g (s_guards s)) as [k|]; [|discriminate].
+    destruct (aget k (s_ents s)) as [e|]; [|discriminate].
+    assert (G : s_guards s1 = adel g (s_guards s)).
+    { destruct (e_val e); [inv Hu; auto|]. destruct (Nat.eqb _ 0); inv Hu; auto. }
+    rewrite G, akeys_adel. rewrite remove_nat_In. tauto.
+Qed.
+
+(* a panicking value_or_insert_with closure leaves the state untouched and the guard alive *)
+Theorem closure_panic_no_effect c s g s' ob :
+  step c s (LGuardOp g GClosurePanic) = ROk s' ob -> s' = s /\ (ob = OPanicked \/ exists v, ob = OVal (Some v)).
+Proof.
+  cbn. unfold do_guard_op. destruct (negb (guard_live s g)); [discriminate|].
+  destruct (aget g (s_guards s)) as [k|]; [|discriminate]. destruct (aget k (s_ents s)) as [e|]; [|discriminate].
+  destruct (e_val e) as [[v st]|]; intros H; inv H; split; eauto.
+Qed.
+
+(* while a callback runs, the library holds nothing: any new call can be started (re-entrancy) *)
+Theorem reentrant_start c s a' sh k lim :
+  aget a' (s_ops s) = None -> lim_ok lim = true ->
+  step c s (LStart a' (CLock sh k lim)) = ROk (set_pc s a' (PEnter sh k lim)) ONothing.
+Proof.
+  intros Ha Hl. cbn. unfold do_start, amem. rewrite Ha, Hl. reflexivity.
+Qed.
+
+(* an agent inside its callback holds no handle of the library *)
+Lemma incb_holds_nothing sh k n offered k' : pc_handles (PInCb sh k n offered) k' = 0 /\ pc_waits (PInCb sh k n offered) k' = false.
+Proof. auto. Qed.
+
+Theorem all_locked_proceeds c s a sh k n o s' ob :
+  Inv s -> aget a (s_ops s) = Some (PEnter sh k (Some n)) ->
+  (forall k0, In k0 (akeys (s_ents s)) -> evictable_b (s_ents s) k0 = false) ->
+  step c s (LResume a o) = ROk s' ob ->
+  (forall l, ob <> OOffered l) /\ do_lookup c s a sh k = ROk s' ob.
+Proof.
+  intros HI Ha Hne H.
+  assert (Hno : forall l, ob <> OOffered l).
+  { intros l ->. destruct (enter_offered c s a sh k n o s' l HI Ha H) as (order & Ho & _ & Hnn & _ & Hf & _).
+    destruct (iter_order_spec c s o order (inv_nd_e _ HI) Ho) as (_ & Hin & _).
+    assert (Hall : forall x, In x order -> evictable_b (s_ents s) x = false) by (intros x Hx; apply Hne; apply Hin; auto).
+    assert (E : filter (evictable_b (s_ents s)) order = []).
+    { clear -Hall. induction order as [|x t IH]; cbn; auto.
+      rewrite (Hall x) by (left; auto). apply IH. intros k Hk. apply Hall. right; auto. }
+    rewrite E, firstn_nil in Hf. destruct l; [congruence|discriminate]. }
+  split; auto. apply (enter_proceeds c s a sh k n o s' ob HI Ha H Hno).
+Qed.
